@@ -503,13 +503,22 @@ pub async fn run_case(c: &Fields, v5: bool) -> Fields {
 
     let mut obs = Fields::new();
     for op in c.iter().skip(1) {
+        let mut held = false;
         match op.first() {
             Some(1) => peer.io.write(packet_bytes(op, v5)),
             Some(2) => hg.open(arg(op, 1), arg(op, 2)),
             Some(3) => pg.open(arg(op, 1), arg(op, 2)),
+            // engines inb3b / inb5b: the packet is written and nothing runs before the next operation,
+            // the frames of consecutive held operations reach the server in one read
+            Some(4) if op.get(1) == Some(&1) => {
+                peer.io.write(packet_bytes(&op[1..], v5));
+                held = true;
+            }
             _ => {}
         }
-        settle().await;
+        if !held {
+            settle().await;
+        }
         let mut o = Vec::new();
         peer.drain(&mut o);
         o.push(254);
